@@ -172,6 +172,11 @@ def run_sequence(seed, k, res):
                     why = "slot %d: evaluation number %d did not travel with its point (expected %d)" % (j, M.eval_num[j], sh[j]["ev"])
             if why:
                 break
+        # "designates the smallest STORED objective": minimality is judged on the model's own stored values (each of which was just
+        # compared with the shadow's recomputation to 1e-12) - judging it on the recomputed values turns a last-bit difference
+        # between two summation orders into a spurious 'not the minimum' at a near tie
+        if why is None:
+            objs = [float(v) for v in M.objval[:cur]]
         fin = [o for o in objs if not np.isnan(o)]
         if why is None:
             if not (0 <= M.kopt < cur):
